@@ -48,7 +48,7 @@ Proof.
       destruct (kind_eqb (nkind cmd) (nkind smd)); auto.
       destruct (nkind cmd); auto;
         destruct (rec (Obj smd smms) (final om0) (Obj cmd cmms)) as [t|e p]; auto; destruct e; auto.
-    + destruct (has_dicts cm); auto.
+    + auto.
 Qed.
 
 Lemma remerge_members_app : forall rec isnew l1 l2 oms0 acc,
@@ -69,7 +69,7 @@ Proof.
       destruct (kind_eqb (nkind cmd) (nkind smd)); auto.
       destruct (nkind cmd); auto;
         destruct (rec (Obj smd smms) (final om0) (Obj cmd cmms)) as [t|e p]; auto; destruct e; auto.
-    + destruct (has_dicts cm); auto.
+    + auto.
 Qed.
 
 Lemma assign_fresh : forall A n (v : A) l, ~ In n (names l) -> assign n v l = l ++ [(n, v)].
@@ -96,39 +96,38 @@ Qed.
 Lemma mem_name_in : forall n l, mem_name n l = true <-> In n l.
 Proof. intros. unfold mem_name. apply existsb_eqb_in. Qed.
 
-(* Stubs in a separate stubs package: the loader's double merge = the second merge of the __init__ pair (resettle) followed
-   by ONE ordinary merge of the stubs submodules (all the one-merge theorems apply to them as they are). *)
+(* Stubs in a separate stubs package: the loader's double merge = the single merge of the __init__ pair followed by ONE
+   ordinary merge of the stubs submodules (all the one-merge theorems apply to them as they are). *)
 Theorem load_package_stubs_package : forall s subs,
   wfs s -> has_dicts s = true -> root_container s = true ->
   NoDup (names subs) -> (forall n, In n (names subs) -> ~ In n (names (members s))) ->
-  forall top r, merge_obj s top = Done r ->
-  exists rd rms, resettle s top r = Obj rd rms /\
+  forall top rd rms, merge_obj s top = Done (Obj rd rms) ->
     load_package2 top s subs =
     match merge_members merge_obj subs rms with
     | (rms', None) => Ok (Obj rd rms')
     | (_, Some e) => Err e
     end.
 Proof.
-  intros s subs W HD RC ND FR top r M.
-  pose proof (second_merge_resettles s W HD RC top r M) as SM.
+  intros s subs W HD RC ND FR top rd cms M.
+  pose proof (second_merge_identity s W HD RC top _ M) as SM.
   destruct s as [sd sms|tg rt|tg rt x]; try discriminate.
   destruct top as [od oms|tg rt|tg rt x]; [|simpl in M; discriminate|simpl in M; discriminate].
   pose proof W as (NDm & _ & NDi & NDb & _).
-  destruct (field_table _ _ _ _ _ M NDm NDb) as (cms & -> & _ & _).
+  destruct (field_table _ _ _ _ _ M NDm NDb) as (cms' & EQ & _ & _).
+  inversion EQ as [[ER EC]]. subst cms'.
   set (cd := with_imp (with_doc od (merge_doc (ndoc od) (ndoc sd))) (update_imports (nimp od) (nimp sd))) in *.
-  cbn [resettle] in *. eexists; eexists; split; [reflexivity|].
   unfold load_package2. rewrite M. unfold remerge_top. cbn [add_members].
   simpl in FR. rewrite (fold_assign_fresh subs sms ND FR).
   cbn [remerge] in SM.
   assert (EN : with_imp (with_doc cd (merge_doc (ndoc cd) (ndoc sd))) (update_imports (nimp cd) (nimp sd)) = cd).
   { unfold cd. destruct od; unfold with_imp, with_doc; simpl. rewrite merge_doc_idem, (update_imports_idem _ _ NDi). reflexivity. }
-  cbv zeta in SM. rewrite EN in SM. cbv zeta. rewrite EN.
+  cbv zeta in SM. rewrite ER in *. rewrite EN in SM. cbv zeta. rewrite EN.
   rewrite remerge_members_app.
   rewrite (remerge_members_isnew_ext remerge _ (fun _ => false) sms oms cms).
   - destruct (remerge_members remerge (fun _ => false) sms oms cms) as [cms2 [e|]]; [discriminate|].
     inversion SM as [E2].
     rewrite remerge_members_all_new by (intros n I; now apply mem_name_in).
-    destruct (merge_members merge_obj subs (resettle_members resettle sms oms cms)) as [rms' [e|]]; reflexivity.
+    destruct (merge_members merge_obj subs cms) as [rms' [e|]]; reflexivity.
   - intros n I. destruct (mem_name n (names subs)) eqn:MN; auto.
     apply mem_name_in in MN. exfalso. exact (FR n MN I).
 Qed.
@@ -144,7 +143,7 @@ Example stubs_package_example :
   NoDup (names exp_subs) /\ (forall n, In n (names exp_subs) -> ~ In n (names (members ex5_s_ok))) /\
   exists t, load_package2 exp_top ex5_s_ok exp_subs = Ok t /\
     at_path ["sub"; "h"] t = Some (Obj (with_ret (with_params (nd KFun) [("x", Some "int")]) (Some "int")) []) /\
-    at_path ["S"] t = Some (set_rt false (ex5_S [] [("k", ex5_g)])).
+    at_path ["S"] t = Some (set_rt false (ex5_S [("m", ["m(self) -> int"; "m(self, x: int) -> str"])] [("k", ex5_g)])).
 Proof.
   split; [repeat constructor; simpl; tauto|]. split.
   - intros n [<-|[]] [E|[]]. discriminate.
